@@ -66,3 +66,25 @@ V('C05', 'dunder-names-need-suffix', T, 'edb.pgsql.types._source_table_info',
   "    if ptr_name.startswith('__') or ptr_name == 'id':", "    if (ptr_name.startswith('__') and ptr_name.endswith('__')) or ptr_name == 'id':", 'C05.R6', 'column-name:ObjectType')
 V('C05', 'inheritance-view-no-link-bias', 'edb/pgsql/inheritance.py', 'edb.pgsql.inheritance._get_select_from',
   '                    ptr,\n                    link_bias=isinstance(obj, s_links.Link),\n', '                    ptr,\n', 'C05.R9', '_get_select_from:link_bias')
+
+# round 4
+V('C05', 'abstract-link-table-not-dropped', 'edb/pgsql/delta.py',
+  'edb.pgsql.delta.LinkMetaCommand._delete_link',
+  '''            self.attach_alter_table(context)
+
+        if types.has_table(link, orig_schema):
+            condition = dbops.TableExists(name=old_table_name)
+            self.pgops.add(
+                dbops.DropTable(name=old_table_name, conditions=[condition]))
+''', '''            self.attach_alter_table(context)
+
+            if types.has_table(link, orig_schema):
+                condition = dbops.TableExists(name=old_table_name)
+                self.pgops.add(
+                    dbops.DropTable(name=old_table_name, conditions=[condition]))
+''', 'C05.R10', 'own-table-dropped')
+V('C05', 'caused-commands-not-collected', 'edb/pgsql/delta.py',
+  'edb.pgsql.delta.MetaCommand.apply_caused',
+  'for op in self.get_caused():',
+  'for op in self.get_subcommands(include_prerequisites=False, include_caused=False):',
+  'C05.R10', 'collects-get_caused')
